@@ -7,8 +7,10 @@
     operand, aliasing included) on a shared pool of concrete objects: every pool object keeps its snapshot, and each result
     equals the result on a fresh pool. With data concrete there is nothing for a solver to decide; the claim for longer
     histories rests on the inductive step (a).
-(c) hash seeds (real interpreters, enumerated): the same expression built under different PYTHONHASHSEED values gives the same
-    text, or texts that are equivalent on all texts up to the bound (exact SMT encoding)."""
+(c) hash seeds and construction order (real interpreters, enumerated): ~4k expressions are built in one interpreter per
+    PYTHONHASHSEED value, each in a different (seeded) order; every expression must give the same text in all of them, or texts
+    that are equivalent on all texts up to the bound (exact SMT encoding) - so the value of an expression depends neither on the
+    hash seed nor on what was built before it."""
 import random
 from vlib import common, dsl, progs, seeds
 from vlib.symx import engine
@@ -28,7 +30,7 @@ def _snap(x, behaviour=True):
     return v
 
 def _pool():
-    return [Pregex('ab'), Pregex('a'), Pregex(), Either('ab', 'cd'), AnyLetter(), AnyButFrom('x', 'y'), Capture('a', 'n'), Optional('ab'),
+    return [Pregex('ab'), AnyFrom('e'), Pregex(), Either('ab', 'cd'), AnyFrom('a', 'e', 'i', 'o', 'u'), AnyButFrom('x', 'y'), Capture('a', 'n'), Optional('ab'),
             MatchAtStart('a'), NotFollowedBy('a', 'b'), Group('ab', True), Pregex("\\\\'") + Optional('b')]
 
 _OPS = [
@@ -140,17 +142,40 @@ def seed_sources(tier):
     return [dsl.src(e, "class") for e in ps] + cls
 
 
-def task_seed_equiv(src, outcomes):
-    """texts that differ across hash seeds must be equivalent regexes"""
+ORDER_SCRIPT = (
+    "import json, os, subprocess\nsrcs = %(srcs)r\ntarget = %(target)d\nseeds = %(seeds)r\ntext = %(text)r\nouts = []\n"
+    "for sd in seeds:\n"
+    "    env = dict(os.environ, PYTHONHASHSEED=str(sd), VERIF_REPO=os.path.dirname(sys.path[0]), PYTHONDONTWRITEBYTECODE='1')\n"
+    "    r = subprocess.run([sys.executable, '-W', 'ignore', %(classgen)r], input=json.dumps(srcs), capture_output=True, text=True, env=env)\n"
+    "    outs.append(tuple(json.loads(r.stdout)[target][:2]))\n"
+    "fi = lambda pat: [(m.span(), m.groups()) for m in re.finditer(pat, text, FLAGS)]\n"
+    "for a in outs:\n"
+    "    for b in outs:\n"
+    "        if a[0] != b[0] or (a[0] == 'exc' and a != b): REPRODUCED('%%s: %%r vs %%r depending on the hash seed / evaluation history (seeds %%r)' %% (srcs[target], a, b, seeds))\n"
+    "        if a[0] == 'ok' and a[1] != b[1]:\n"
+    "            try:\n                d = fi(a[1]) != fi(b[1])\n            except re.error:\n                d = True\n"
+    "            if d: REPRODUCED('%%s: patterns %%r and %%r (seeds %%r, different evaluation order) differ on %%r' %% (srcs[target], a[1], b[1], seeds, text))\n"
+    "NOT_REPRODUCED()\n")
+
+_SRCS = []
+
+
+def task_seed_equiv(idx, outcomes):
+    """outcomes that differ across interpreters (hash seed, evaluation order) must be equivalent regexes"""
+    import os
+    src = _SRCS[idx]
     pats = [o[1] for o in outcomes if o[0] == "ok"]
     excs = [o for o in outcomes if o[0] != "ok"]
-    name = "hash seeds: %s" % src[:100]
-    if excs and pats or len({tuple(e) for e in excs}) > 1:
-        return {"name": name, "status": "violated", "detail": "%s: outcome depends on the hash seed: %r" % (src, outcomes), "hashseed": [s for o in outcomes for s in o[2]][:8],
-                "inputs": {"src": src, "text": ""},
-                "script": "import os\nsrc = %r\nalls = %r\ntry:\n    got = ('ok', str(eval(src)))\nexcept Exception as e:\n    got = ('exc', type(e).__name__)\n"
-                          "others = [tuple(o[:2]) for o in alls if tuple(o[:2]) != got]\n"
-                          "if others and got in [tuple(o[:2]) for o in alls]: REPRODUCED('%%s gives %%r under this hash seed and %%r under another' %% (src, got, others[0]))\nNOT_REPRODUCED()\n" % (src, [list(o) for o in outcomes])}
+    name = "hash seeds / evaluation order: %s" % src[:100]
+    allseeds = [o[2][0] for o in outcomes]
+
+    def script(text):
+        return ORDER_SCRIPT % dict(srcs=_SRCS, target=idx, seeds=allseeds, text=text, classgen=os.path.join(common.VERIF, "vlib", "classgen.py"))
+    if (excs and pats) or len({tuple(e[:2]) for e in excs}) > 1:
+        return {"name": name, "status": "violated", "detail": "%s: outcome depends on the hash seed / evaluation history: %r" % (src, [o[:2] for o in outcomes]),
+                "inputs": {"src": src, "text": ""}, "script": script("")}
+    if not pats:
+        return {"name": name, "status": "discharged"}
     base = pats[0]
     ss = 0.0
     import re as _re
@@ -161,11 +186,8 @@ def task_seed_equiv(src, outcomes):
             return {"name": name, "status": "skipped", "detail": "emitted text rejected by re (%s): C03's business" % x}
         ss += s1
         if verdict == "sat":
-            return {"name": name, "status": "violated", "solver_s": ss, "detail": "%s: %r and %r (different hash seeds) differ on %r" % (src, base, other, text),
-                    "hashseed": [s for o in outcomes for s in o[2]][:8], "inputs": {"src": src, "text": text},
-                    "script": "src = %r\ntext = %r\nbase, other = %r, %r\np = str(eval(src))\n"
-                              "fi = lambda pat: [(m.span(), m.groups()) for m in re.finditer(pat, text, FLAGS)]\n"
-                              "if p in (base, other) and fi(base) != fi(other): REPRODUCED('%%s: %%r vs %%r on %%r' %% (src, base, other, text))\nNOT_REPRODUCED()\n" % (src, text, base, other)}
+            return {"name": name, "status": "violated", "solver_s": ss, "detail": "%s: %r and %r (different hash seed / evaluation order) differ on %r" % (src, base, other, text),
+                    "inputs": {"src": src, "text": text}, "script": script(text)}
         if verdict != "unsat":
             return {"name": name, "status": "inconclusive", "detail": "%s %s" % (verdict, info), "solver_s": ss}
     return {"name": name, "status": "discharged", "solver_s": ss, "sample": {"expression": src, "texts_across_seeds": pats[:3]}}
@@ -184,20 +206,21 @@ def run(tier):
     cases = step_cases(tier)
     outs = engine.run_cases(cases, per_condition_timeout=480 if tier == "quick" else 3000)
     run.add(engine.to_results(cases, outs))
-    ks = range(NPOOL) if tier == "thorough" else sorted({11, common.SEED % 11})
-    chunks = [list(range(NOPS))[i::8] for i in range(8)]
+    ks = range(NPOOL) if tier == "thorough" else sorted({11, 4, common.SEED % 11})
+    chunks = [list(range(NOPS))[i::5] for i in range(5)]
     run.add(common.run_tasks(__name__, [("task_histories", (k, ch)) for k in ks for ch in chunks]))
     # hash seeds
     srcs = seed_sources(tier)
     seed_list = list(range(4)) if tier == "quick" else list(range(16))
     by = seeds.eval_under_seeds(srcs, seed_list)
+    _SRCS[:] = srcs
     same, tasks = 0, []
-    for s in srcs:
+    for i, s in enumerate(srcs):
         outs_ = [(k[0], k[1], v) for k, v in by[s].items()]
         if len(outs_) == 1:
             same += 1
         else:
-            tasks.append(("task_seed_equiv", (s, outs_)))
+            tasks.append(("task_seed_equiv", (i, outs_)))
     run.add([{"name": "hash seeds: %d expressions give the identical outcome under seeds %s" % (same, seed_list), "status": "discharged",
               "sample": {"identical_across_seeds": same, "seeds": seed_list}}])
     run.add(common.run_tasks(__name__, tasks))
@@ -206,7 +229,7 @@ def run(tier):
                 "expressions_rebuilt_under_seeds": len(srcs), "seed_dependent_texts_checked_for_equivalence": len(tasks)}
     run.bounds = {"step": "%d single operations, literal content symbolic (one character, every code point)" % len(step_cases(tier)),
                   "histories": "all two-operation histories: %d operation codes x %d operands, twice, on %s (exhaustive enumeration of concrete runs - validation, not a solver verdict)" %
-                  (NOPS, NPOOL, "every pool object" if tier == "thorough" else "2 pool objects"),
+                  (NOPS, NPOOL, "every pool object" if tier == "thorough" else "3 pool objects"),
                   "hash_seeds": "%d expressions rebuilt under PYTHONHASHSEED %s" % (len(srcs), seed_list)}
     run.assumptions = ["an object's value = (pattern text, inferred type, repeatable flag, verbose class text); the compiled cache may change",
                        "histories longer than two operations follow by induction only for the enumerated operations (each operation preserves every operand's value)",
